@@ -134,7 +134,7 @@ def deep_clone(ex, v):
 
 def clone_typed(ex, v, ty):
     """clone `v: &ty` the way `<ty as Clone>::clone` would: workspace impls are executed from MIR, std containers recurse"""
-    v = ex.deref(v) if isinstance(v, Ref) else v
+    v = ex.deref_ref(v)
     ty = ty.strip()
     for outer in ('Vec', 'Box', 'Option'):
         it = inner_type(ty, outer)
